@@ -8,6 +8,7 @@ from .rules import globalstate as gs
 from .rules import interrupt as it
 from .rules import optionrules as op
 from .rules import recordrules as rr
+from .rules import parser as ps
 
 NOT_BEHAVIOUR = 'decides the listed structural clauses (necessary conditions); does not decide the behaviour itself'
 
@@ -82,6 +83,28 @@ prop('C18',
       'tag agreement (R39)', 'action-key flow recorder -> renderers (R40)', 'renderers read only the record (R41)',
       'dump rows have the header arity (R42)', 'no duplicate exclusion in one step (R03 ii)'],
      ['textual agreement of report/dump/JSON figures (they print str() of the same stored object)'])
+prop('C15',
+     [('R26', ps.r26_cid_sanitiser), ('R27', ps.r27_typecode_capacity), ('R28', ps.r28_strip_complete),
+      ('R29', ps.r29_ballot_count_pairing), ('R30', ps.r30_validation)],
+     'Static analysis of droop/profile.py: every candidate ID that enters a set, an order, a name table or a ranking '
+     'flows (reaching definitions) from getCid or a 1..nCand range; the ranking array item type can hold every valid ID '
+     'of its branch; the withdrawn strip tests every element; nBallots grows exactly on the paths that keep a line; the '
+     'three validations run on every accepted profile. ' + NOT_BEHAVIOUR,
+     ['IDs validated before use (R26)', 'storage capacity (R27)', 'complete strip of withdrawn candidates (R28)',
+      'ballot total counts exactly the kept lines (R29)', 'validations on every accepted profile (R30)'],
+     ['tokenizer correctness for quotes/comments/BOM, nickname-vs-number ambiguity, ballot-id accounting (behavioural)'])
+
+prop('C16',
+     [('R31', ps.r31_exception_escape), ('R32', ps.r32_loops_consume), ('R26', ps.r26_cid_sanitiser),
+      ('R27', ps.r27_typecode_capacity), ('R33', ps.r33_cli_handlers)],
+     'Static analysis of droop/profile.py and Droop.py: every partial operation reachable from ElectionProfile(data=...) '
+     '(next, int, subscripts, local-name loads incl. exception edges, %-formatting, list.remove, array construction, raise) '
+     'is discharged, so the escape set is {ElectionProfileError}; every parser loop consumes a token per iteration; accepted '
+     'profiles carry only in-range IDs (what Election.__init__ indexes by); the CLI catches every package exception. '
+     + NOT_BEHAVIOUR,
+     ['exception-escape set of the parser is {ElectionProfileError} (R31)', 'parser loops consume input (R32)',
+      'in-range IDs only (R26, R27)', 'CLI handler exhaustiveness (R33)'],
+     ['"satisfies the invariants of a valid election" beyond R26-R30', 'MemoryError / RecursionError (resource exhaustion)'])
 
 LEVEL_TEXT = ('Static analysis of the source of /repo (never executed): obligations are enumerated from the '
               'repository\'s own entities (rule classes, call sites, stores, loops, class attributes) and each is '
